@@ -10,6 +10,48 @@ use crate::{
     algorithm::validate_size, context::FillValue, cowslice::CowSlice,
 };
 
+/// Get the deepest nesting of arrays and objects in JSON text
+fn json_nesting_depth(json: &str) -> usize {
+    let mut depth = 0usize;
+    let mut max_depth = 0;
+    let mut chars = json.chars().peekable();
+    while let Some(c) = chars.next() {
+        match c {
+            '[' | '{' => {
+                depth += 1;
+                max_depth = max_depth.max(depth);
+            }
+            ']' | '}' => depth = depth.saturating_sub(1),
+            // Strings
+            '"' | '\'' => {
+                while let Some(s) = chars.next() {
+                    if s == '\\' {
+                        chars.next();
+                    } else if s == c {
+                        break;
+                    }
+                }
+            }
+            // Comments
+            '/' if chars.peek() == Some(&'/') => {
+                chars.by_ref().find(|&c| c == '\n');
+            }
+            '/' if chars.peek() == Some(&'*') => {
+                chars.next();
+                let mut prev = ' ';
+                for c in chars.by_ref() {
+                    if prev == '*' && c == '/' {
+                        break;
+                    }
+                    prev = c;
+                }
+            }
+            _ => {}
+        }
+    }
+    max_depth
+}
+
 impl Value {
     pub(crate) fn to_json_string(&self, env: &Uiua) -> UiuaResult<String> {
         let json = self.to_json_value(env)?;
@@ -74,6 +116,13 @@ impl Value {
         })
     }
     pub(crate) fn from_json_string(json: &str, env: &Uiua) -> UiuaResult<Self> {
+        // Parsing and converting recur on nested arrays and objects
+        const MAX_JSON_DEPTH: usize = 128;
+        if json_nesting_depth(json) > MAX_JSON_DEPTH {
+            return Err(env.error(format!(
+                "JSON is nested more than {MAX_JSON_DEPTH} levels deep"
+            )));
+        }
         #[cfg(not(feature = "json5"))]
         let json_value: serde_json::Value = serde_json::from_str(json).map_err(|e| env.error(e))?;
         #[cfg(feature = "json5")]
